@@ -8,6 +8,8 @@ type VerifStats struct {
 	Added, Fetching, Fetched int
 	Queue, Buffer, Failed    int
 	InProgress               int64
+	// FreeSlots is the number of fetch slots that could be acquired right now
+	FreeSlots int
 }
 
 // VerifStats returns the current task/queue/buffer counts.
@@ -30,6 +32,12 @@ func (r *replicator) VerifStats() VerifStats {
 	r.muBuffer.Lock()
 	s.Buffer = len(r.buffer)
 	r.muBuffer.Unlock()
+
+	// count the free slots by taking them all and giving them back
+	for r.sem.TryAcquire(1) {
+		s.FreeSlots++
+	}
+	r.sem.Release(int64(s.FreeSlots))
 
 	return s
 }
